@@ -1,0 +1,37 @@
+//! Read-only accessors used by external verification tooling.
+//!
+//! Compiled only with `--cfg dashu_verif`; nothing here changes behaviour.
+
+use crate::{buffer::Buffer, IBig, UBig};
+
+/// Raw layout facts of a big integer: (signed capacity field, length in words).
+///
+/// `|capacity| <= 2` means the words are stored inline.
+pub fn ubig_repr_info(x: &UBig) -> (isize, usize) {
+    let (cap, _) = x.0.sign_capacity();
+    (cap as isize, x.0.len())
+}
+
+/// See [ubig_repr_info].
+pub fn ibig_repr_info(x: &IBig) -> (isize, usize) {
+    let (cap, sign) = x.0.sign_capacity();
+    let cap = cap as isize;
+    let s: isize = match sign {
+        crate::Sign::Positive => 1,
+        crate::Sign::Negative => -1,
+    };
+    (cap * s, x.0.len())
+}
+
+/// Capacity policy of the heap buffer, exposed for comparison with the model.
+pub fn buffer_default_capacity(num_words: usize) -> usize {
+    Buffer::default_capacity(num_words)
+}
+
+/// See [buffer_default_capacity].
+pub fn buffer_max_compact_capacity(num_words: usize) -> usize {
+    Buffer::max_compact_capacity(num_words)
+}
+
+/// The hard capacity limit of a buffer.
+pub const BUFFER_MAX_CAPACITY: usize = Buffer::MAX_CAPACITY;
